@@ -12,6 +12,8 @@ import (
 	"sort"
 	"strconv"
 	"strings"
+
+	"golang.org/x/tools/go/ssa"
 )
 
 type Clause struct {
@@ -62,6 +64,7 @@ type Contract struct {
 	Sig        *types.Signature
 	funcType   string // named func type for "functype" contracts
 	viaVar     bool   // contract for calls through a package-level variable of function type (funcType = its name)
+	closure    bool   // contract of an anonymous function (written Parent__N)
 	// Uninterp: the body is never inlined nor verified; calls use the contract only
 }
 
@@ -125,6 +128,8 @@ type opaqueDecl struct {
 func newSpecDB() *SpecDB {
 	return &SpecDB{Contracts: map[string]*Contract{}, Ghosts: map[string]*GhostFunc{}, GhostVars: map[string]*GhostVar{}, Immutable: map[string]bool{}, ZeroInit: map[string]*zeroInit{}}
 }
+
+var closureNameRe = regexp.MustCompile(`^(.+)__(\d+)$`)
 
 var labelRe = regexp.MustCompile(`^\[([A-Za-z0-9_.,\- ]+)\]`)
 
@@ -672,6 +677,30 @@ func (db *SpecDB) resolveContracts(P *Program) {
 			}
 			sig = sg
 			c.Key = "dyncall:" + typeStr(tn.Type())
+		} else if m := closureNameRe.FindStringSubmatch(c.funcName); m != nil {
+			// `func Parent__N(params) results`: the N-th anonymous function (SSA numbering Parent$N) inside Parent
+			inner := c.funcName
+			c.funcName = m[1]
+			parent, err := c.resolveFunc(P)
+			c.funcName = inner
+			if err != nil {
+				db.Errors = append(db.Errors, fmt.Sprintf("%s:%d: %v", c.File, c.Line, err))
+				continue
+			}
+			c.Key = parent.FullName() + "$" + m[2]
+			var cf *ssa.Function
+			for _, f := range P.allFunctions() {
+				if f.String() == c.Key {
+					cf = f
+				}
+			}
+			if cf == nil {
+				db.Errors = append(db.Errors, fmt.Sprintf("%s:%d: no anonymous function %s", c.File, c.Line, c.Key))
+				continue
+			}
+			sig = cf.Signature
+			c.RecvName, c.recvExpr = "", nil
+			c.closure = true
 		} else if v := c.resolveFuncVar(P); v != nil {
 			// package-level variable of function type (e.g. `var MsgTypeURL = codectypes.MsgTypeURL`): the contract
 			// applies to calls through the variable (package-level variables are assumed not to be reassigned, T4)
